@@ -108,21 +108,41 @@ def partitions(items):
             yield d
 
 
-def frames(S, m):
-    for k in range(1, m + 1):
+def frames(S, m, min_worlds=1):
+    """Frames over worlds 0..k-1 (min_worlds <= k <= m) obeying S's frame condition. Only frames in which every world is
+    reachable from world 0 (truth at world 0 depends on the generated subframe alone, which is itself a smaller frame
+    enumerated here, and every frame condition used is preserved by generated subframes), and one representative
+    per relabelling of the worlds other than 0 (valuations are enumerated completely, so isomorphic frames give
+    isomorphic model sets)."""
+    from itertools import permutations
+    for k in range(min_worlds, m + 1):
         ws = list(range(k))
         pairs = [(i, j) for i in ws for j in ws]
+        perms = [dict(zip(ws, (0,) + p)) for p in permutations(ws[1:])][1:]
         for bits in product((0, 1), repeat=len(pairs)):
             R = {w: set() for w in ws}
             for (i, j), bit in zip(pairs, bits):
                 if bit:
                     R[i].add(j)
+            # reachability from 0
+            seen, todo = {0}, [0]
+            while todo:
+                for v in R[todo.pop()]:
+                    if v not in seen:
+                        seen.add(v)
+                        todo.append(v)
+            if len(seen) < k:
+                continue
+            if perms:
+                on = {pr for pr, bit in zip(pairs, bits) if bit}
+                if any(tuple(1 if (q[i], q[j]) in on else 0 for i, j in pairs) < bits for q in perms):
+                    continue
             if S.frame_ok(R, ws):
                 yield ws, R
 
 
 def find_countermodel(S, premises, conclusion, *, max_worlds=2, extra_consts=1, limit=4000,
-                      rng=None, sample=1500):
+                      rng=None, sample=1500, min_worlds=1):
     """Search an interpretation of logic S designating all premises and not the
     conclusion at world 0."""
     rng = rng or random.Random(0)
@@ -145,7 +165,7 @@ def find_countermodel(S, premises, conclusion, *, max_worlds=2, extra_consts=1, 
         domain_sizes = range(max(1, len(consts)), len(domain) + 1)
     else:
         domain_sizes = [len(domain)]
-    world_sets = list(frames(S, max_worlds)) if (S.modal and has_m) else [([0], {0: ({0} if S.frame in ('reflexive', 'preorder', 'equivalence', 'serial') else set())})]
+    world_sets = list(frames(S, max_worlds, min_worlds)) if (S.modal and has_m) else [([0], {0: ({0} if S.frame in ('reflexive', 'preorder', 'equivalence', 'serial') else set())})]
     uses_identity = S.classical and syn.IDENTITY in preds
     total_space = 0
     explored = 0
